@@ -171,12 +171,20 @@ def make_case(rng, conn=None):
         case["path_info_hdr"] = {"v": rng.choice([b"/pi", b"/x%20y", b"", b"/caf\xe9", b"/a, b"]).hex(), "before": rng.random() < 0.5}
         if script_hdr is None:
             case["hdr_from_untrusted"] = rng.random() < 0.3
+    # a secure-scheme header as front-ends write it (any letter case): from a trusted peer it decides wsgi.url_scheme, and like every
+    # other field it reaches the application as the client sent it
+    if rng.random() < 0.12:
+        case["scheme_hdr"] = [rng.choice([b"X-Forwarded-Proto", b"X-Forwarded-Ssl", b"X-Forwarded-Protocol", b"x-forwarded-proto"]).hex(),
+                              rng.choice([b"HTTPS", b"https", b"On", b"on", b"SSL", b"ssl", b"Http", b"HTTP", b"Off", b"hTTpS"]).hex()]
+        if script_hdr is None and "path_info_hdr" not in case:
+            case["trusted_peer"] = rng.random() < 0.7
     # rarely used switches
     r = rng.random()
     case["cfgx"] = None
     if conn is not None:
         case.update(kind=conn["kind"], header_map=conn["header_map"], hdr_from_untrusted=not conn["trusted"], script_env="",
                     client_gone=False, version="1.1")
+        case.pop("trusted_peer", None)      # (who is talking is a matter of the connection)
     elif r < 0.1:
         case["cfgx"] = "unconv"
         case["version"] = rng.choice(["2.0", "0.9", "3.1", "1.7", "9.9", "0.0", "2.1", "1.1", "1.0"])
@@ -217,6 +225,8 @@ def render(case):
     pih = case.get("path_info_hdr")
     if pih and pih["before"]:
         wire.append((b"PATH_INFO", bytes.fromhex(pih["v"])))
+    if case.get("scheme_hdr"):
+        wire.append((bytes.fromhex(case["scheme_hdr"][0]), bytes.fromhex(case["scheme_hdr"][1])))
     if case["script_hdr"] is not None:
         wire.append((b"SCRIPT_NAME", bytes.fromhex(case["script_hdr"])))
     if pih and not pih["before"]:
@@ -231,6 +241,8 @@ def render(case):
 
 def is_trusted(case):
     """Is the peer of this request's connection on forwarded_allow_ips?"""
+    if case.get("trusted_peer") is not None and case["script_hdr"] is None and not case.get("path_info_hdr"):
+        return case["trusted_peer"]
     return (case["script_hdr"] is not None or bool(case.get("path_info_hdr"))) and not case.get("hdr_from_untrusted")
 
 
@@ -367,6 +379,8 @@ def count_reach(run, case, exp):
     path = bytes.fromhex(case["target"]).split(b"?")[0].split(b"#")[0]
     if MIXED_ESCAPE.search(path):
         run.count("path_escape_with_mixed_case_hex_letters")
+    if case.get("scheme_hdr") and is_trusted(case):
+        run.count("scheme_header_from_trusted_peer_reported")
     if case.get("cfgx"):
         run.count("switch/" + case["cfgx"])
         if case["cfgx"] == "folding" and hm == "drop":
@@ -541,7 +555,7 @@ def main(tier, seed):
     run.require("accepted", "form/origin", "form/absolute", "form/asterisk", "with_script_name", "repeated_header_joined",
                 "script_name_header_from_untrusted_peer", "script_name_not_a_prefix_cases", "header_map_dangerous_cases",
                 "two_spellings_one_variable", "client_gone_cases", "live_script_name_checks",
-                "path_escape_with_mixed_case_hex_letters", "switch/unconv", "switch/casefold", "switch/folding", "folded_field_dropped_after_kept_field", "version_outside_1x_accepted",
+                "path_escape_with_mixed_case_hex_letters", "switch/unconv", "switch/casefold", "switch/folding", "scheme_header_from_trusted_peer_reported", "folded_field_dropped_after_kept_field", "version_outside_1x_accepted",
                 "version_1x_other_than_1.0_1.1_accepted", "unconventional_method_accepted", "forwarder_path_info_field_mapped",
                 "forwarder_fields_in_reverse_order", "keepalive_connections", "keepalive_later_request_accepted",
                 "keepalive_later_request_with_forwarder_script_name")
